@@ -180,8 +180,11 @@ def run_family(fam, tier, seed, outdir, scale=1, inputs=None):
 def eval_shards(cases, imports, prelude, typ, fn, tag, outdir, shard=150, timeout=900):
     """evaluate fn on every case inside Coq; returns dict idx -> code, or raises RuntimeError"""
     jobs = []
-    for k in range(0, len(cases), shard):
-        chunk = cases[k:k + shard]
+    # cases without a Coq term (the harness gave up on them: watchdog) are reported
+    # through the invariant channel and are not evaluated
+    live = [i for i, c in enumerate(cases) if c.get("coq")]
+    for k in range(0, len(live), shard):
+        chunk = [cases[i] for i in live[k:k + shard]]
         name = "shard_%s_%d" % (tag, k // shard)
         path = os.path.join(outdir, name + ".v")
         with open(path, "w") as f:
@@ -202,7 +205,7 @@ def eval_shards(cases, imports, prelude, typ, fn, tag, outdir, shard=150, timeou
             raise RuntimeError("cannot parse coqc output for %s: %s" % (path, flat[:400]))
         res = {}
         for a, b in re.findall(r"\(\s*(\d+)%?N?\s*,\s*(\d+)%?N?\s*\)", m.group(1)):
-            res[k + int(a)] = int(b)
+            res[live[k + int(a)]] = int(b)
         return res
     allres = {}
     with ThreadPoolExecutor(max_workers=16) as ex:
